@@ -47,7 +47,7 @@ package keeper
 //@   modifies PledgeDebt[sp], heap(Coin)
 //@   ensures [C07.repay.frame] forall r ref :: r != rewards[0] && (len(rewards) < 2 || r != rewards[1]) ==> heap(Coin)[r] == old(heap(Coin))[r]
 //@   ensures [C07.repay.nodebt] !old(has(PledgeDebt, sp)) ==> *rewards[0] == old(*rewards[0]) && (len(rewards) == 2 ==> *rewards[1] == old(*rewards[1])) && !has(PledgeDebt, sp)
-//@   ensures [C07.repay.conserve] old(has(PledgeDebt, sp)) ==>
+//@   ensures [C07.repay.conserve] [C06.repay.conserve] old(has(PledgeDebt, sp)) ==>
 //@       rewards[0].Amount + (len(rewards) == 2 ? rewards[1].Amount : 0) + old(PledgeDebt[sp].Debt.Amount) - (has(PledgeDebt, sp) ? PledgeDebt[sp].Debt.Amount : 0)
 //@       == old(rewards[0].Amount) + (len(rewards) == 2 ? old(rewards[1].Amount) : 0)
 //@   ensures [C07.repay.mono0] 0 <= rewards[0].Amount && rewards[0].Amount <= old(rewards[0].Amount) && rewards[0].Denom == old(rewards[0].Denom)
@@ -80,10 +80,10 @@ package keeper
 //@   requires has(PledgeDebt, str(sp)) ==> PledgeDebt[str(sp)].Sp == str(sp) && PledgeDebt[str(sp)].Debt.Amount >= 0
 //@   requires shard != nil ==> shard.Pledge.Amount >= 0
 //@   modifies Pledge[str(sp)], PledgeDebt[str(sp)], Bank
-//@   ensures [C07.release.amount] err == nil && shard != nil && sp != moduleAddr("node") ==>
+//@   ensures [C07.release.amount] [C06.release.amount] err == nil && shard != nil && sp != moduleAddr("node") ==>
 //@       bal(sp, shard.Pledge.Denom) + (old(has(PledgeDebt, shard.Sp)) ? old(PledgeDebt[shard.Sp].Debt.Amount) : 0)
 //@       == old(bal(sp, shard.Pledge.Denom)) + shard.Pledge.Amount + (has(PledgeDebt, shard.Sp) ? PledgeDebt[shard.Sp].Debt.Amount : 0)
-//@   ensures [C07.release.escrow] err == nil && shard != nil && sp != moduleAddr("node") ==>
+//@   ensures [C07.release.escrow] [C06.release.escrow] err == nil && shard != nil && sp != moduleAddr("node") ==>
 //@       bal(moduleAddr("node"), shard.Pledge.Denom) - old(bal(moduleAddr("node"), shard.Pledge.Denom)) == old(bal(sp, shard.Pledge.Denom)) - bal(sp, shard.Pledge.Denom)
 //@   ensures [C07.release.bankframe] err == nil ==> forall a addr, d string :: (a != sp && a != moduleAddr("node")) || shard == nil || d != shard.Pledge.Denom ==> bal(a, d) == old(bal(a, d))
 //@   ensures [C14.release.used] err == nil && shard != nil && shard.Size_ <= old(Pledge[str(sp)].UsedStorage) ==> Pledge[str(sp)].UsedStorage == old(Pledge[str(sp)].UsedStorage) - shard.Size_
@@ -116,11 +116,11 @@ package keeper
 //@   ensures [C07.pledge.base] err == nil ==> shard.Pledge.Amount >= ceilDec((unitPrice.Amount * old(shard.Size_) * old(shard.Duration)) / 10)
 //@   ensures [C07.pledge.exact] err == nil && len(old(shard.RenewInfos)) == 0 ==> shard.Pledge.Amount == ceilDec((unitPrice.Amount * old(shard.Size_) * old(shard.Duration)) / 10)
 //@   ensures [C07.pledge.renew] err == nil ==> forall j int :: 0 <= j && j < len(old(shard.RenewInfos)) ==> shard.Pledge.Amount >= old(shard.RenewInfos)[j].Pledge.Amount
-//@   ensures [C07.pledge.taken] err == nil && addr(old(shard.Sp)) != moduleAddr("node") ==>
+//@   ensures [C07.pledge.taken] [C06.pledge.taken] err == nil && addr(old(shard.Sp)) != moduleAddr("node") ==>
 //@       (bal(moduleAddr("node"), shard.Pledge.Denom) - oldbal(moduleAddr("node"), shard.Pledge.Denom))
 //@       + ((has(PledgeDebt, shard.Sp) ? PledgeDebt[shard.Sp].Debt.Amount : 0) - (old(has(PledgeDebt, shard.Sp)) ? old(PledgeDebt[shard.Sp].Debt.Amount) : 0))
 //@       == shard.Pledge.Amount
-//@   ensures [C07.pledge.from] err == nil && addr(old(shard.Sp)) != moduleAddr("node") ==>
+//@   ensures [C07.pledge.from] [C06.pledge.from] err == nil && addr(old(shard.Sp)) != moduleAddr("node") ==>
 //@       bal(moduleAddr("node"), shard.Pledge.Denom) - oldbal(moduleAddr("node"), shard.Pledge.Denom) == oldbal(addr(shard.Sp), shard.Pledge.Denom) - bal(addr(shard.Sp), shard.Pledge.Denom)
 //@   ensures [C07.pledge.bankframe] err == nil ==> forall a addr, d string :: (a != addr(old(shard.Sp)) && a != moduleAddr("node")) || d != shard.Pledge.Denom ==> bal(a, d) == old(bal(a, d))
 //@   ensures [C07.pledge.capacity] err == nil && old(pledgeWf(Pledge[shard.Sp])) ==> pledgeWf(Pledge[shard.Sp]) && old(Pledge[shard.Sp].TotalStorage - Pledge[shard.Sp].UsedStorage) >= shard.Size_
@@ -175,7 +175,7 @@ package keeper
 //@   ensures [C07.cap.add] err == nil && msg.Size_ <= MaxInt64 - 1000000 && (old(has(Pledge, msg.Creator)) ==> old(Pledge[msg.Creator].TotalStorage) <= MaxInt64 - msg.Size_ - 1000000) ==>
 //@       Pledge[msg.Creator].TotalStorage == (old(has(Pledge, msg.Creator)) ? old(Pledge[msg.Creator].TotalStorage) : 0) + 1000000 * div(msg.Size_ + 999999, 1000000)
 //@       && Pledge[msg.Creator].TotalStoragePledged.Amount == (old(has(Pledge, msg.Creator)) ? old(Pledge[msg.Creator].TotalStoragePledged.Amount) : 0) + div(msg.Size_ + 999999, 1000000)
-//@   ensures [C07.cap.add.bank] err == nil && msg.Size_ <= MaxInt64 - 1000000 && addr(msg.Creator) != moduleAddr("node") ==>
+//@   ensures [C07.cap.add.bank] [C06.cap.add.bank] err == nil && msg.Size_ <= MaxInt64 - 1000000 && addr(msg.Creator) != moduleAddr("node") ==>
 //@       bal(moduleAddr("node"), param(KeyBaseLine).Denom) == old(bal(moduleAddr("node"), param(KeyBaseLine).Denom)) + div(msg.Size_ + 999999, 1000000)
 //@       && bal(addr(msg.Creator), param(KeyBaseLine).Denom) == old(bal(addr(msg.Creator), param(KeyBaseLine).Denom)) - div(msg.Size_ + 999999, 1000000)
 //@   ensures [C10.addv.bankframe] err == nil ==> forall a addr, d string :: a != addr(msg.Creator) && a != moduleAddr("node") ==> bal(a, d) == old(bal(a, d))
@@ -205,7 +205,7 @@ package keeper
 //@       && Pledge[msg.Creator].TotalStoragePledged.Amount == old(Pledge[msg.Creator].TotalStoragePledged.Amount) - div(msg.Size_, 1000000)
 //@       && div(msg.Size_, 1000000) >= 1
 //@   ensures [C07.cap.rm.free] err == nil ==> 1000000 * div(msg.Size_, 1000000) <= old(Pledge[msg.Creator].TotalStorage - Pledge[msg.Creator].UsedStorage) && pledgeWf(Pledge[msg.Creator])
-//@   ensures [C07.cap.rm.bank] err == nil && addr(msg.Creator) != moduleAddr("node") ==>
+//@   ensures [C07.cap.rm.bank] [C06.cap.rm.bank] err == nil && addr(msg.Creator) != moduleAddr("node") ==>
 //@       bal(moduleAddr("node"), param(KeyBaseLine).Denom) == old(bal(moduleAddr("node"), param(KeyBaseLine).Denom)) - div(msg.Size_, 1000000)
 //@       && bal(addr(msg.Creator), param(KeyBaseLine).Denom) == old(bal(addr(msg.Creator), param(KeyBaseLine).Denom)) + div(msg.Size_, 1000000)
 //@   ensures [C10.rmv.bankframe] err == nil ==> forall a addr, d string :: a != addr(msg.Creator) && a != moduleAddr("node") ==> bal(a, d) == old(bal(a, d))
@@ -235,13 +235,13 @@ package keeper
 //@       && old(pendingQ(Pledge[msg.Creator], get(Pool).AccRewardPerByte.Amount)) >= 0 ==>
 //@       Pledge[msg.Creator].Reward.Amount == mod(old(pendingQ(Pledge[msg.Creator], get(Pool).AccRewardPerByte.Amount)), 1000000000000000000)
 //@       && Pledge[msg.Creator].RewardDebt.Amount == old(get(Pool).AccRewardPerByte.Amount) * Pledge[msg.Creator].TotalStorage
-//@   ensures [C08.claim.paid] err == nil && old(has(Pool)) && old(Pledge[msg.Creator].TotalStorage >= 0 && (Pledge[msg.Creator].TotalStorage == 0 ==> Pledge[msg.Creator].RewardDebt.Amount == 0))
+//@   ensures [C08.claim.paid] [C06.claim.paid] err == nil && old(has(Pool)) && old(Pledge[msg.Creator].TotalStorage >= 0 && (Pledge[msg.Creator].TotalStorage == 0 ==> Pledge[msg.Creator].RewardDebt.Amount == 0))
 //@       && old(pendingQ(Pledge[msg.Creator], get(Pool).AccRewardPerByte.Amount)) >= 0
 //@       && addr(msg.Creator) != moduleAddr("node") && addr(msg.Creator) != moduleAddr("market") && moduleAddr("node") != moduleAddr("market") ==>
 //@       oldbal(moduleAddr("node"), Pledge[msg.Creator].Reward.Denom) - bal(moduleAddr("node"), Pledge[msg.Creator].Reward.Denom)
 //@         <= div(old(pendingQ(Pledge[msg.Creator], get(Pool).AccRewardPerByte.Amount)), 1000000000000000000)
 //@       && oldbal(moduleAddr("node"), Pledge[msg.Creator].Reward.Denom) - bal(moduleAddr("node"), Pledge[msg.Creator].Reward.Denom) >= 0
-//@   ensures [C08.claim.debt] err == nil && old(has(Pool)) && old(Pledge[msg.Creator].TotalStorage >= 0 && (Pledge[msg.Creator].TotalStorage == 0 ==> Pledge[msg.Creator].RewardDebt.Amount == 0))
+//@   ensures [C08.claim.debt] [C06.claim.debt] err == nil && old(has(Pool)) && old(Pledge[msg.Creator].TotalStorage >= 0 && (Pledge[msg.Creator].TotalStorage == 0 ==> Pledge[msg.Creator].RewardDebt.Amount == 0))
 //@       && old(pendingQ(Pledge[msg.Creator], get(Pool).AccRewardPerByte.Amount)) >= 0
 //@       && addr(msg.Creator) != moduleAddr("node") && addr(msg.Creator) != moduleAddr("market") && moduleAddr("node") != moduleAddr("market") ==>
 //@       (bal(addr(msg.Creator), Pledge[msg.Creator].Reward.Denom) - oldbal(addr(msg.Creator), Pledge[msg.Creator].Reward.Denom))
